@@ -5,6 +5,8 @@ import os
 import vlib
 
 CODE_NAME = {"X": "undefined-global", "Y": "deprecated"}
+# written code lists (DiagRules!CodeLists): U = a name that is no diagnostic code of this analyzer (a LuaLS code)
+CODE_LIST = {"X": "undefined-global", "Y": "deprecated", "U": "lowercase-global", "XU": "undefined-global, lowercase-global"}
 STMT = {"X": "foo()", "Y": "depr()"}
 TAG = {"next": "disable-next-line", "line": "disable-line", "block": "disable"}
 PRELUDE = "\n---@deprecated\nfunction depr() end\n"
@@ -19,7 +21,7 @@ def comment_text(cm, live=True):
     head = "---@diagnostic " if live else "--- diagnostic "
     t = head + TAG[cm["kind"]]
     if cm["codes"] != "all":
-        t += ": " + CODE_NAME[cm["codes"]]
+        t += ": " + CODE_LIST[cm["codes"]]
     return t
 
 
